@@ -52,7 +52,7 @@ Obs(g, e) ==
                 IN IF o.d = "none" /\ ~Layout(e) THEN Res(o.g, o.v, "layout-differs") ELSE o
            [] e.k = "begin" -> ObsBegin(g, e.w)
            [] e.k = "end"   -> IF g.depth = 0 THEN Res(g, "ok", "unbalanced-end") ELSE ObsEnd(g, e.toks, e.w)
-           [] e.k = "text"  -> IF e.styles THEN ObsExportStyled(g, Tr.cfg.cs, e.toks, e.clear, Tr.sty)
+           [] e.k = "text"  -> IF e.styles THEN ObsExportStyled(g, IF Tr.cfg.nocolor THEN "none" ELSE Tr.cfg.cs, e.toks, e.clear, Tr.sty)   \* NO_COLOR: the file carries no colours, the export does - pens are not compared with the file
                                ELSE ObsExportText(g, e.chars, e.clear)
            [] e.k = "html"  -> ObsExportHtml(g, e.chars, e.rule, e.link, e.clear, e.inline)
            [] OTHER         -> Res(g, "unknown-event", "none")
